@@ -2,7 +2,7 @@ SPECIFICATION Spec
 CONSTANTS
   Bug = ""
   Lo <- LoThorough
-  Hi = 7
+  Hi = 6
   MaxN = 7
 INVARIANTS GreedyIsOptimal Monotone NextD Least MeetContract Tight
 CHECK_DEADLOCK FALSE
